@@ -36,6 +36,11 @@ RULE = (
     "subscription has happened or overlapping it 1..4 ticks later; each subscription is judged by the same reference from "
     "its own subscribe tick (window_when then uses a single closing timeline because the round-robin counter is per "
     "observable); failures of the second subscription carry the signature suffix ':2nd-subscription'.  "
+    "Gap round: generated count/skip also 7, 8, 9, 12 (thorough enumeration up to 9, sources up to 12 elements); "
+    "fractional timespan/timeshift (x.5 ticks), timedelta arguments on the TestScheduler, HistoricalScheduler also for the "
+    "boundary / closing-selector / toggle rules; and, for time and time-or-count, an operator scheduler whose cancellation "
+    "of relative timers is ineffective (scheduler docs: cancellation is best effort), under which the same reference must "
+    "hold (a cancelled window timer that fires anyway must not open or close anything).  "
     "Non-trivial: >=2 windows with >=1 element each (first subscription).  Distinct = distinct case JSON."
 )
 ASSUMPTIONS = [
@@ -44,6 +49,7 @@ ASSUMPTIONS = [
     "window_toggle: completion of the openings ends the outer sequence only (pinned by test_window_toggle_basic); what happens after the source's completion is not judged except that windows open at that instant must end there (property text)",
     "closing / duration / boundary / openings observables never error (not part of the property statement)",
     "buffer_with_count drops empty buffers (its implementation filters them), so empty lists are ignored on both sides for the count form only",
+    "disposing a scheduled timer is best effort (documented on every schedule_* method): with the case flag nocancel the operator's timers run even after it cancelled them, and the window rule is still required to hold",
     "cases reaching the lab's same-instant spin guard or the work budget are discarded as inconclusive",
 ]
 
@@ -122,19 +128,65 @@ def _closing_obs(lab, c):
     return lab.cold([[c["dt"], c.get("kind", "N"), "i0" if c.get("kind", "N") == "N" else None]])
 
 
+class _BestEffortCancel:
+    """The lab scheduler with *ineffective* cancellation of relative timers: scheduler docs promise cancellation only
+    as "best effort" (a real timer that already fired cannot be recalled), so a timer an operator has cancelled may
+    still run; the window rule must not depend on it.  Only the operator's own timers go through this wrapper."""
+
+    def __init__(self, lab):
+        self._lab = lab
+        self.fired_after_cancel = 0
+
+    def __getattr__(self, name):
+        return getattr(self._lab.sched, name)
+
+    def schedule_relative(self, duetime, action, state=None):
+        from reactivex.disposable import Disposable
+
+        flag = {"cancelled": False}
+
+        def run(sched, st_=None):
+            if flag["cancelled"]:
+                self.fired_after_cancel += 1
+            return action(sched, st_)
+
+        self._lab.sched.schedule_relative(duetime, run, state)
+
+        def cancel():
+            flag["cancelled"] = True
+
+        return Disposable(cancel)
+
+
+def _op_scheduler(lab, case):
+    if case.get("nocancel"):
+        lab.nocancel = _BestEffortCancel(lab)
+        return lab.nocancel
+    return lab.sched if case.get("sched_arg") else None
+
+
+def _t(lab, case, x):
+    """A relative time argument: the clock's native form, or (td_args) a timedelta on the TestScheduler too."""
+    if case.get("td_args") and lab.clock_kind == "test":
+        from datetime import timedelta
+
+        return timedelta(seconds=x)
+    return lab.rel(x)
+
+
 def _operator(lab, case, variant, marks):
     f = case["form"]
     W = variant == "window"
     if f == "count":
         return (ops.window_with_count if W else ops.buffer_with_count)(case["count"], case["skip"])
     if f == "time":
-        span = lab.rel(case["span"])
-        shift = lab.rel(case["shift"]) if case["shift"] else None
-        sch = lab.sched if case.get("sched_arg") else None
+        span = _t(lab, case, case["span"])
+        shift = _t(lab, case, case["shift"]) if case["shift"] else None
+        sch = _op_scheduler(lab, case)
         return (ops.window_with_time if W else ops.buffer_with_time)(span, shift, sch)
     if f == "toc":
-        sch = lab.sched if case.get("sched_arg") else None
-        return (ops.window_with_time_or_count if W else ops.buffer_with_time_or_count)(lab.rel(case["span"]), case["count"], sch)
+        sch = _op_scheduler(lab, case)
+        return (ops.window_with_time_or_count if W else ops.buffer_with_time_or_count)(_t(lab, case, case["span"]), case["count"], sch)
     if f == "boundary":
         b = lab.source(case["b"], "b")
         return (ops.window if W else ops.buffer)(b)
@@ -288,6 +340,16 @@ def _classes(case, obs_w, ties, choice):
         cls.append("late-subscribe")
     if case.get("clock") == "hist":
         cls.append("clock:hist")
+    if case.get("nocancel"):
+        cls.append("best-effort-cancellation-scheduler")
+    if case.get("td_args") and case.get("clock", "test") == "test":
+        cls.append("timedelta-args-on-test-clock")
+    if any(isinstance(case.get(k), float) for k in ("span", "shift")):
+        cls.append("fractional-span-or-shift")
+    if case["form"] == "count" and max(case["count"], case["skip"] or 0) > 6:
+        cls.append("count-or-skip>6")
+    if len([m for m in case["src"]["tl"] if m[1] == "N"]) > 8:
+        cls.append("source>8-elements")
     f = case["form"]
     if f == "count":
         s = case["skip"] if case["skip"] is not None else case["count"]
@@ -448,6 +510,8 @@ def _run(case):
     opname = _OPNAME[f]
     runs = []
     cls = []
+    if getattr(lab, "nocancel", None) is not None and lab.nocancel.fired_after_cancel:
+        cls.append("cancelled-timer-fired-anyway")
     for i, (sub, p) in enumerate(zip(subs, probes)):
         res, obs_w, c = _judge_windows(case, i, sub, p, marks)
         if res is not None:
@@ -557,8 +621,9 @@ def _run_gjoin(case):
 
 def _enum_count(tier):
     N = 12 if tier == "quick" else 16
-    for count in range(1, 7):
-        for skip in [None] + list(range(1, 7)):
+    top = 6 if tier == "quick" else 9
+    for count in range(1, top + 1):
+        for skip in [None] + list(range(1, top + 1)):
             for n in range(0, N + 1):
                 for term in ("C", "E", None):
                     for spacing in (0, 1):
@@ -575,19 +640,23 @@ def _enum_count(tier):
                             yield {"form": "count", "count": count, "skip": skip, "sub": 0, "resub": r, "src": {"kind": "cold", "tl": tl}}
 
 
-_src = st.fixed_dictionaries(
-    {
-        "kind": st.sampled_from(["cold", "cold", "hot", "sync"]),
-        "tl": timelines(max_len=8, max_dt=3, values=NAMES, terminal=("C", "C", "E", None)),
-    }
-)
+def _src(tier):
+    return st.fixed_dictionaries(
+        {
+            "kind": st.sampled_from(["cold", "cold", "hot", "sync"]),
+            "tl": timelines(max_len=8 if tier == "quick" else 12, max_dt=3, values=NAMES, terminal=("C", "C", "E", None)),
+        }
+    )
+
+
 _sub = st.sampled_from([0, 0, 0, 2, 3])
 _closing = st.fixed_dictionaries({"dt": st.sampled_from([0, 1, 1, 2, 3, 4, 6, None]), "kind": st.sampled_from(["N", "N", "C"])})
 _closings = st.lists(_closing, min_size=1, max_size=3).filter(lambda cs: any(c["dt"] != 0 for c in cs))
 _ints = ["n:0", "n:1", "n:2", "n:3"]
-
-
 _resub = st.sampled_from([None, None, None, None, {"mode": "after"}, {"mode": "after"}, {"mode": "overlap", "at": 1}, {"mode": "overlap", "at": 3}])
+_clock = st.sampled_from(["test", "test", "test", "hist"])
+_spans = [1, 2, 3, 4, 5, 6, 1.5, 2.5]
+_shifts = [None, 1, 1, 2, 2, 3, 3, 4, 5, 6, 8, 0.5, 1.5, 2.5]
 
 
 def _fix_resub(case):
@@ -598,33 +667,31 @@ def _fix_resub(case):
     return case
 
 
-def _gen_form(f):
-    base = {"form": st.just(f), "src": _src, "sub": _sub, "resub": _resub}
+def _gen_form(f, tier="quick"):
+    base = {"form": st.just(f), "src": _src(tier), "sub": _sub, "resub": _resub}
     if f == "count":
-        base.update(count=st.sampled_from([1, 2, 3, 4, 5, 6]), skip=st.sampled_from([None, 1, 2, 3, 4, 5, 6]))
+        big = [7, 8, 9, 12]
+        base.update(count=st.sampled_from([1, 2, 3, 4, 5, 6] * 2 + big), skip=st.sampled_from([None, 1, 2, 3, 4, 5, 6] * 2 + big))
     elif f == "time":
-        base.update(
-            span=st.sampled_from([1, 2, 3, 4, 5, 6]),
-            shift=st.sampled_from([None, 1, 1, 2, 2, 3, 3, 4, 5, 6, 8]),
-            clock=st.sampled_from(["test", "test", "test", "hist"]),
-            sched_arg=st.booleans(),
-        )
+        base.update(span=st.sampled_from(_spans), shift=st.sampled_from(_shifts), clock=_clock, sched_arg=st.booleans(), td_args=st.booleans(), nocancel=st.sampled_from([False, False, False, True]))
     elif f == "toc":
-        base.update(span=st.sampled_from([1, 2, 3, 4, 5, 6]), count=st.sampled_from([1, 2, 3, 4]), clock=st.sampled_from(["test", "test", "test", "hist"]), sched_arg=st.booleans())
+        base.update(span=st.sampled_from(_spans), count=st.sampled_from([1, 2, 3, 4]), clock=_clock, sched_arg=st.booleans(), td_args=st.booleans(), nocancel=st.sampled_from([False, False, True]))
     elif f == "boundary":
         base.update(
             b=st.fixed_dictionaries(
                 {"kind": st.sampled_from(["cold", "cold", "hot"]), "tl": timelines(max_len=5, max_dt=4, values=_ints, terminal=(None, None, "C"))}
-            )
+            ),
+            clock=_clock,
         )
     elif f == "when":
-        base.update(closings=_closings)
+        base.update(closings=_closings, clock=_clock)
     elif f == "toggle":
         base.update(
             o=st.fixed_dictionaries(
                 {"kind": st.sampled_from(["cold", "cold", "hot"]), "tl": timelines(max_len=5, max_dt=4, values=_ints, terminal=(None, None, "C"))}
             ),
             closings=st.lists(_closing, min_size=1, max_size=3),
+            clock=_clock,
         )
     elif f == "gjoin":
         base.update(
@@ -641,11 +708,11 @@ def checks(tier):
     q = tier == "quick"
     return [
         Check("count_enum", _run, cases=_enum_count, shards={"quick": 4, "thorough": 16}, exhaustive=True),
-        Check("count", _run, strategy=_gen_form("count"), examples={"quick": 300, "thorough": 16 * 2000}, shards={"quick": 4, "thorough": 16}),
-        Check("time", _run, strategy=_gen_form("time"), examples={"quick": 700, "thorough": 16 * 5000}, shards={"quick": 4, "thorough": 16}),
-        Check("time_or_count", _run, strategy=_gen_form("toc"), examples={"quick": 500, "thorough": 16 * 3000}, shards={"quick": 4, "thorough": 16}),
-        Check("boundary", _run, strategy=_gen_form("boundary"), examples={"quick": 400, "thorough": 16 * 2500}, shards={"quick": 4, "thorough": 16}),
-        Check("when", _run, strategy=_gen_form("when"), examples={"quick": 400, "thorough": 16 * 2500}, shards={"quick": 4, "thorough": 16}),
-        Check("group_join", _run, strategy=_gen_form("gjoin"), examples={"quick": 400, "thorough": 16 * 2500}, shards={"quick": 4, "thorough": 16}),
-        Check("toggle", _run, strategy=_gen_form("toggle"), examples={"quick": 500, "thorough": 16 * 3000}, shards={"quick": 4, "thorough": 16}),
+        Check("count", _run, strategy=_gen_form("count", tier), examples={"quick": 300, "thorough": 16 * 2000}, shards={"quick": 4, "thorough": 16}),
+        Check("time", _run, strategy=_gen_form("time", tier), examples={"quick": 700, "thorough": 16 * 5000}, shards={"quick": 4, "thorough": 16}),
+        Check("time_or_count", _run, strategy=_gen_form("toc", tier), examples={"quick": 500, "thorough": 16 * 3000}, shards={"quick": 4, "thorough": 16}),
+        Check("boundary", _run, strategy=_gen_form("boundary", tier), examples={"quick": 400, "thorough": 16 * 2500}, shards={"quick": 4, "thorough": 16}),
+        Check("when", _run, strategy=_gen_form("when", tier), examples={"quick": 400, "thorough": 16 * 2500}, shards={"quick": 4, "thorough": 16}),
+        Check("group_join", _run, strategy=_gen_form("gjoin", tier), examples={"quick": 400, "thorough": 16 * 2500}, shards={"quick": 4, "thorough": 16}),
+        Check("toggle", _run, strategy=_gen_form("toggle", tier), examples={"quick": 500, "thorough": 16 * 3000}, shards={"quick": 4, "thorough": 16}),
     ]
